@@ -90,15 +90,18 @@ def dcmp (a b : DV) : Int :=
   | some x, some y =>
     match Semver.vcompare x y with
     | .ok c => thenInt c (cmpBytes a.v.key.version b.v.key.version)
-    | _ => 0
+    | .err => 0
+    | .panic => 0
   | none, none => cmpBytes a.v.key.version b.v.key.version
 
-theorem less_eq_dcmp (a b : DV) : less a b = decide (dcmp a b < 0) := by
+theorem less_iff_dcmp (a b : DV) : less a b = true ↔ dcmp a b < 0 := by
   unfold less dcmp
   cases a.sv <;> cases b.sv <;> simp
-  rename_i y x
-  cases Semver.vcompare x y <;> simp [thenInt]
+  split <;> simp [thenInt]
   split <;> simp_all
+
+theorem less_eq_dcmp (a b : DV) : less a b = decide (dcmp a b < 0) := by
+  rw [Bool.eq_iff_iff, less_iff_dcmp]; simp
 
 /-- Membership of a decorated element in the decorated list. -/
 def InList (s : Semver.System) (l : List Resolve.Match.Version) (d : DV) : Prop := ∃ v ∈ l, d = dec s v
